@@ -169,7 +169,8 @@ def _run(ctx, chk):
             if not ok:
                 continue
             o, o2 = takes[0][1], pushes[0][1]
-            ids = {x[2][2][1] for x in qev if x[0] in ("take", "find") or x[2][1] in ("Q.find", "Q.remove")}
+            ids = {x[2][2][1] if x[2][1].startswith("Q.") else key_of_getmut(x[2], r)
+                   for x in qev if x[0] in ("take", "find") or x[2][1] in ("Q.find", "Q.remove")}
             if inplace:
                 # the locked entry's key (a reference to the id argument of the in-place primitive)
                 ids = {key_of_getmut(takes[0][2], r)} | {x[2][2][1] for x in qev if x[2][1] in ("Q.find", "Q.remove")}
